@@ -324,6 +324,13 @@ func runC14(o *Out) {
 				oligoA, oligoB, oligoC = res[3:11], res[20:28], res[41:49]
 			}
 		}
+		gbAnnot := append([]byte(nil), gb...)
+		for _, q := range []string{"/gene=\"", "/product=\"", "/note=\""} {
+			if i := bytes.Index(gbAnnot, []byte(q)); i >= 0 {
+				gbAnnot[i+len(q)] = 'Z'
+				break
+			}
+		}
 		tabA := []byte("     misc_feature    1..10\n                     /note=\"one\"\n")
 		tabB := []byte("     misc_feature    5..20\n                     /note=\"two\"\n")
 		secs := []sec{
@@ -338,6 +345,11 @@ func runC14(o *Out) {
 			{"search-query-second-record", []string{"search", mutable}, []byte(">q\n" + oligoA + "\n>r\n" + oligoB + "\n"), []byte(">q\n" + oligoA + "\n>r\n" + oligoC + "\n"), gb, nil},
 			{"insert-guest-same-residues", []string{"insert", "^", mutable}, gb, fa, gb, nil},
 			{"infix-host-same-residues", []string{"infix", "^", mutable}, gb, fa, []byte(">g\nacgt\n"), nil},
+			// the same record with one qualifier value changed: same residues, same
+			// length, same number of features
+			{"insert-guest-annotation", []string{"insert", "^", mutable}, gb, gbAnnot, gb, nil},
+			{"insert-guest-annotation-embed", []string{"insert", "^", mutable, "-e"}, gb, gbAnnot, gb, nil},
+			{"infix-host-annotation", []string{"infix", "^", mutable}, gb, gbAnnot, []byte(">g\nacgt\n"), nil},
 			{"annotate-table-qualifier", []string{"annotate", mutable}, tabA, bytes.Replace(tabA, []byte("one"), []byte("eno"), 1), gb, nil},
 		}
 		var hs, cs []string
